@@ -69,17 +69,49 @@ Example exA_plain_decoded :
   /\ total_at ZNum exA [b "a"; b "b"] = 19%Z.
 Proof. vm_compute. split; reflexivity. Qed.
 
-(** without [prefix_free] (log [a:1, a/b:2], [ex4] of Proofs/TreeExamples.v)
-    the leaf amounts differ between the modes - the hypothesis of
-    [balance_modes_same_leaves] cannot be dropped - but nothing is dropped *)
+(** without [prefix_free] (log [a:1, a/b:2], [ex4] of Proofs/TreeExamples.v):
+    before fix 3cc3ec3 the two collapsing modes showed the leaf [a/b] with 3
+    (the category's total under the sub-category's path; the example
+    [ex4_modes_differ] recorded 2 / 3 / 3); now the category [a], which has an
+    entry of its own, keeps its row and all modes show the leaf with 2 *)
 Example ex4_not_prefix_free : ~ prefix_free ZNum ex4.
 Proof. intros H. apply prefix_freeb_iff in H. vm_compute in H. discriminate. Qed.
 
-Example ex4_modes_differ :
+Example ex4_modes_agree_after_fix :
   leaf_rows ZNum (balance_rows ZNum (@rev bytes) false false (built ex4)) = [([b "a"; b "b"], 2%Z)] /\
-  leaf_rows ZNum (balance_rows ZNum (@rev bytes) true false (built ex4)) = [([b "a"; b "b"], 3%Z)] /\
-  leaf_rows ZNum (balance_rows ZNum (@rev bytes) false true (built ex4)) = [([b "a"; b "b"], 3%Z)].
+  leaf_rows ZNum (balance_rows ZNum (@rev bytes) true false (built ex4)) = [([b "a"; b "b"], 2%Z)] /\
+  leaf_rows ZNum (balance_rows ZNum (@rev bytes) false true (built ex4)) = [([b "a"; b "b"], 2%Z)] /\
+  balance_rows ZNum (@rev bytes) true false (built ex4) = [(3%Z, 0, b "a"); (2%Z, 1, b "b")]%nat /\
+  balance_rows ZNum (@rev bytes) false true (built ex4) = [(3%Z, 0, b "a"); (2%Z, 1, b "b")]%nat.
 Proof. vm_compute. repeat split; reflexivity. Qed.
+
+(** by the theorem that needs no [prefix_free] (exact numbers) *)
+Example ex4_same_leaves_by_theorem : forall collapse collapse_last,
+  leaf_rows ZNum (balance_rows ZNum (@rev bytes) collapse collapse_last (built ex4)) =
+  leaf_rows ZNum (balance_rows ZNum (@rev bytes) false false (built ex4)).
+Proof.
+  intros collapse cl.
+  destruct (balance_modes_same_leaves_any_log ZNum ex4 (@rev bytes) rev_is_perm) as [_ H].
+  rewrite !(H BalancePrint.ZNum_go_eq_is_eq). reflexivity.
+Qed.
+
+(** the log of the fix: every mode, every visible category path with its specified total *)
+Example fix_log_collapsed_rows :
+  balance_rows ZNum (@rev bytes) true false (built BalancePrint.fix_log) =
+  [(3%Z, 0, b "coffee"); (2%Z, 1, b "latte/large"); (3%Z, 0, b "milk"); (2%Z, 1, b "whole");
+   (4%Z, 0, b "tea/green/cup")]%nat /\
+  total_at ZNum BalancePrint.fix_log [b "coffee"; b "latte"] = 2%Z /\
+  total_at ZNum BalancePrint.fix_log [b "coffee"] = 3%Z.
+Proof. vm_compute. repeat split; reflexivity. Qed.
+
+Example fix_log_joined_row_by_theorem :
+  go_eq_chain ZNum 2%Z (total_at ZNum BalancePrint.fix_log [b "coffee"; b "latte"; b "large"]).
+Proof.
+  apply (balance_joined_row_totals ZNum BalancePrint.fix_log (@rev bytes) true false rev_is_perm
+           [b "coffee"] [b "latte"; b "large"] 2%Z).
+  - vm_compute. tauto.
+  - vm_compute. tauto.
+Qed.
 
 Example ex4_still_visible : forall collapse collapse_last,
   In [b "a"] (all_paths ZNum (balance_rows ZNum (@rev bytes) collapse collapse_last (built ex4))).
